@@ -71,6 +71,9 @@ type PropMeta struct {
 	Rule string   `json:"rule"`
 	Real []string `json:"real"`
 	Stub []string `json:"stub"`
+	// Reach: probes that a batch of a few thousand runs must hit at least once; a probe stuck at
+	// zero means a world is no longer reached (the check then has no verdict rather than a clean one)
+	Reach []string `json:"required_reach_probes,omitempty"`
 }
 
 // PropIDs lists the properties that have a check.
